@@ -210,8 +210,9 @@ class TwistedEventLoop(EventLoop):
         self._twisted_idle_enabled = True
 
     def _twisted_idle_callback(self) -> None:
-        for callback in self._idle_callbacks.values():
-            callback()
+        for handle, callback in list(self._idle_callbacks.items()):
+            if handle in self._idle_callbacks:  # not removed by a previous idle callback
+                callback()
         self._twisted_idle_enabled = False
 
     def remove_enter_idle(self, handle: int) -> bool:
